@@ -139,6 +139,27 @@ def gen_cases(chk):
                     vals = [c] * k + [c + d] * (n - k)
                     cases.append("rtr %x %s %s 0 %s %s 0 szMode=SZ_BEST_SPEED;quantization_intervals=%d x:%s" % (ty, tup5(t), tup5(t), dbits(float(e)), dbits(1e-3), q,
                                                                                                            ",".join("%x" % enc(ty, v) for v in vals)))
+    # the 8- and 16-bit kernels clamp reconstructions to the type's range (every predictor position has its own clamp):
+    # noisy data hugging the minimum / the maximum, every rank
+    for ty in (2, 3, 4, 5):
+        lo, hi = tmin(ty), tmax(ty)
+        for t in ((200,), (12, 16), (8, 16, 16), (5, 6, 7), (3, 4, 5, 6)):
+            n = 1
+            for v in t:
+                n *= v
+            for side in (0, 1):
+                for e in (1, 3, 5) if not thorough else (1, 2, 3, 5, 7):
+                    amp = 4 * e + 3
+                    # a third of the values exactly on the extreme, so that reconstructions overshoot it at every kind of position
+                    vals = [((lo if rng.random() < 0.33 else lo + rng.randrange(0, amp)) if side == 0 else (hi if rng.random() < 0.33 else hi - rng.randrange(0, amp))) for _ in range(n)]
+                    # reconstructions live on the lattice first value + 2ke: anchor it so that the lattice point nearest to the
+                    # extreme lies beyond it (offset e+1), otherwise no reconstruction ever needs clamping
+                    vals[0] = lo + e + 1 if side == 0 else hi - (e + 1)
+                    # few intervals: many values are stored exactly and re-anchor the lattice all over the array (with many intervals the first
+                    # clamped value re-anchors it on the extreme for good)
+                    q = rng.choice((4, 8, 0))
+                    cases.append("rtr %x %s %s 0 %s %s 0 szMode=SZ_BEST_SPEED%s x:%s" % (ty, tup5(t), tup5(t), dbits(float(e)), dbits(1e-3), ";quantization_intervals=%d" % q if q else "",
+                                                                                        ",".join("%x" % enc(ty, v) for v in vals)))
     # range-relative bounds and the wrapped modes on generated data in the safe zone (oracle only)
     for t in [(500,), (40, 30), (9, 10, 11), (3, 4, 5, 6)] + ([(20000,), (150, 150), (30, 30, 30)] if thorough else []):
         n = 1
